@@ -211,7 +211,11 @@ Theorem C44_spec_ok_sound :
     (o_esync o = true -> forall id, In id (concat (o_pend o)) -> ~ In id committed) /\
     (o_esync o = true -> o_replay o = (-1)%Z) /\
     total o <= maxsize + o_nsp o /\
-    ~ (admitted = true /\ would = 0).
+    ~ (admitted = true /\ would = 0) /\
+    (* PendingTxIDs(), Lookup() and PendingCount() show exactly the pending groups' transactions *)
+    (forall id, In id (o_ids o) <-> In id (concat (o_pend o))) /\
+    (forall id, In id (o_lkp o) <-> In id (concat (o_pend o))) /\
+    o_cnt o = total o.
 Proof. exact obs_hard_ok_sound. Qed.
 Print Assumptions C44_spec_ok_sound.
 
